@@ -54,7 +54,19 @@ pub enum Case {
     /// never reads / its transport never completes shutdown
     Shutdown { trigger: Trigger, disc_ms: u32, accept_delay: u16, peer: PeerEnd, never_reads: bool, shutdown_blocks: bool },
     /// graceful-shutdown signal at `signal_ms`
-    Drain { signal_ms: u16, n: u8, h_ms: Vec<u16>, body_ms: Vec<u16>, arrive_ms: Vec<u16>, disc_ms: u32, ka: KaCfg },
+    Drain {
+        signal_ms: u16,
+        n: u8,
+        h_ms: Vec<u16>,
+        body_ms: Vec<u16>,
+        arrive_ms: Vec<u16>,
+        disc_ms: u32,
+        ka: KaCfg,
+        /// per request: 0 = no request body; otherwise the request carries a 200-byte body whose
+        /// second half arrives this many ms after the first half (handlers read the whole body)
+        #[serde(default)]
+        upload_gap_ms: Vec<u16>,
+    },
 }
 
 fn when() -> impl Strategy<Value = When> {
@@ -127,8 +139,9 @@ fn case_strategy(kind: u8) -> BoxedStrategy<Case> {
             proptest::collection::vec(prop_oneof![3 => Just(0u16), 2 => 1u16..500], 4),
             prop_oneof![Just(0u32), Just(500u32)],
             prop_oneof![3 => Just(KaCfg::Timeout(5000)), 1 => Just(KaCfg::Os)],
+            proptest::collection::vec(prop_oneof![3 => Just(0u16), 2 => 1u16..600], 4),
         )
-            .prop_map(|(signal_ms, n, h_ms, body_ms, arrive_ms, disc_ms, ka)| Case::Drain {
+            .prop_map(|(signal_ms, n, h_ms, body_ms, arrive_ms, disc_ms, ka, upload_gap_ms)| Case::Drain {
                 signal_ms,
                 n,
                 h_ms,
@@ -136,6 +149,7 @@ fn case_strategy(kind: u8) -> BoxedStrategy<Case> {
                 arrive_ms,
                 disc_ms,
                 ka,
+                upload_gap_ms,
             })
             .boxed(),
     }
@@ -544,13 +558,19 @@ pub fn run_case(_cfg: &RunCfg, case: &Case) -> Verdict {
             v
         }
 
-        Case::Drain { signal_ms, n, h_ms, body_ms, arrive_ms, disc_ms, ka } => {
+        Case::Drain { signal_ms, n, h_ms, body_ms, arrive_ms, disc_ms, ka, upload_gap_ms } => {
             let n = (*n as usize).clamp(1, 4);
+            let gap_of = |i: usize| upload_gap_ms.get(i).copied().unwrap_or(0);
             let mut input = vec![];
             let mut ranges = vec![];
             for i in 0..n {
                 let s = input.len();
-                input.extend_from_slice(format!("GET /d{i} HTTP/1.1\r\nHost: x\r\n\r\n").as_bytes());
+                if gap_of(i) > 0 {
+                    input.extend_from_slice(format!("POST /d{i} HTTP/1.1\r\nHost: x\r\nContent-Length: 200\r\n\r\n").as_bytes());
+                    input.extend(std::iter::repeat_n(b'u', 200));
+                } else {
+                    input.extend_from_slice(format!("GET /d{i} HTTP/1.1\r\nHost: x\r\n\r\n").as_bytes());
+                }
                 ranges.push((s, input.len()));
             }
             let mut ops = vec![];
@@ -563,7 +583,16 @@ pub fn run_case(_cfg: &RunCfg, case: &Case) -> Verdict {
                     now += gap;
                 }
                 t_arrive.push(now as i64);
-                ops.push(PeerOp::Send(ranges[i].0, ranges[i].1));
+                if gap_of(i) > 0 {
+                    // head + first half of the body now, the rest later
+                    let cut = ranges[i].1 - 100;
+                    ops.push(PeerOp::Send(ranges[i].0, cut));
+                    ops.push(PeerOp::Sleep(gap_of(i) as u32));
+                    now += gap_of(i) as u32;
+                    ops.push(PeerOp::Send(cut, ranges[i].1));
+                } else {
+                    ops.push(PeerOp::Send(ranges[i].0, ranges[i].1));
+                }
             }
             ops.push(PeerOp::WaitClose(30_000));
             ops.push(PeerOp::Eof);
@@ -598,6 +627,10 @@ pub fn run_case(_cfg: &RunCfg, case: &Case) -> Verdict {
                 .nt(in_flight_at_signal && queued_at_signal)
                 .class_if(in_flight_at_signal, "handler-running-at-signal")
                 .class_if(queued_at_signal, "request-queued-at-signal")
+                .class_if(
+                    out.reqs.iter().enumerate().any(|(i, r)| gap_of(i) > 0 && (r.t_dispatch as i64) < tg && t_arrive[i] + gap_of(i) as i64 > tg),
+                    "upload-in-progress-at-signal",
+                )
                 .class_if(t_arrive.iter().any(|t| *t > tg), "request-arrives-after-signal")
                 .class_if(out.reqs.is_empty(), "signal-before-any-dispatch");
             let v = match common(v, &out) {
@@ -643,14 +676,21 @@ pub fn run_case(_cfg: &RunCfg, case: &Case) -> Verdict {
             if matches!(out.end, ConnEnd::Stalled) {
                 return v.fail_with(format!("connection never completed after the signal at {tg} ms"));
             }
-            let work_end = out
-                .reqs
-                .iter()
-                .zip(h_ms.iter().zip(body_ms.iter()))
-                .map(|(r, (_, b))| r.t_return.unwrap_or(0) as i64 + *b as i64)
-                .max()
-                .unwrap_or(0)
-                .max(tg);
+            // (expected times from the case, not observed ones: a handler that is only released by
+            // the peer's much later half-close must not move the goal)
+            let mut work_end = tg;
+            for (i, r) in out.reqs.iter().enumerate() {
+                let upload_done = if gap_of(i) > 0 { t_arrive[i] + gap_of(i) as i64 } else { 0 };
+                let ret = (r.t_dispatch as i64 + h_ms[i] as i64).max(upload_done);
+                work_end = work_end.max(ret + body_ms[i] as i64);
+                // an upload in progress at the signal still reaches its handler completely
+                if gap_of(i) > 0 && !(matches!(r.end, h1engine::BodyEnd::Clean) && r.body_len == 200) {
+                    return v.fail_with(format!(
+                        "request {} was dispatched at {} ms (signal at {tg} ms) but its handler saw the body end as {:?} after {} of 200 bytes",
+                        r.target, r.t_dispatch, r.end, r.body_len
+                    ));
+                }
+            }
             let end = out.end_at as i64;
             if end > work_end + *disc_ms as i64 + EPS + 2 {
                 return v.fail_with(format!(
